@@ -20,11 +20,12 @@ def arrowheadNames : List String :=
   ["none", "arrow", "triangle", "diamond", "circle", "box", "cf-one", "cf-many", "cf-one-required", "cf-many-required", "cross"]
 def knownColors : List String := ["red", "blue", "green", "orange", "black", "white", "yellow", "purple", "grey", "gray"]
 
-/-- `Object.ID` of a field name (`d2format.Format` of `RawString(name)`): plain names only; a name equal to a reserved keyword
-    comes out lower-cased -/
+/-- `Object.ID` of a field name (`d2format.Format` of `RawString(name, inKey)`): plain names only.  A name whose lower-case form
+    is a reserved keyword other than the name itself is double-quoted by `RawString` (`"Label"`); a name that is a reserved
+    keyword in lower case stays as it is (`label`) -/
 def objID (n : Name) : Except Err String :=
   if !plainName n.s then .error (.gap s!"name {n.s} needs quoting")
-  else if n.resLower then .ok (toLower n.s) else .ok n.s
+  else if n.resLower && toLower n.s != n.s then .ok ("\"" ++ n.s ++ "\"") else .ok n.s
 
 def objIDs : List Name → Except Err (List String)
   | [] => .ok []
